@@ -61,7 +61,7 @@ class EndpointRequestGenerator:
             elif primary_content_type == "application/x-www-form-urlencoded":
                 args_list.append("data=form_data_body")  # Assumes form_data_body is defined
             elif primary_content_type:  # Other types, like application/octet-stream
-                args_list.append("data=bytes_body")  # Assumes bytes_body is defined
+                args_list.append("content=bytes_body")  # Assumes bytes_body is defined
             # else: # No specific content type handled, might mean no body or unhandled type
             #     args_list.append("json=None")
             #     args_list.append("data=None")
